@@ -6,6 +6,8 @@ import (
 	"strings"
 
 	"kvassverif/core"
+
+	"tkestack.io/kvass/pkg/target"
 )
 
 // Which selects the oracles to evaluate on a trace.
@@ -255,6 +257,55 @@ func checkC04(tr *CycleTrace, rep *ReplicaTrace, r Reporter) {
 				fmt.Sprintf("replica %s: target %d (series %d, total %d) alone exceeds a limit (head %d, process %d) but was assigned", rep.ID, h, e.Series, e.Total, o.MaxHeadSeries, o.MaxProcessSeries))
 		}
 	}
+	// (b3) a target that is already scraped and alone exceeds a limit never causes a scale-up:
+	// all shards in sync, nothing unscraped is waiting, and without the oversized targets no
+	// shard is above half of a limit
+	if allSync && len(rep.Shards) > 0 {
+		waiting, heldOver := 0, 0
+		for _, h := range sortedHashes(tr.Active) {
+			if !reported(rep, h) {
+				if e := tr.Explore[h]; e == nil || e.Health != "unknown" {
+					waiting++ // anything the coordinator might try to place
+				}
+			}
+		}
+		// calm: relief cannot be asking for space on behalf of an ordinary target: every shard
+		// is either below both limits, or everything it holds besides the oversized targets is
+		// not movable anyway (not healthy, fewer than 3 scrapes)
+		calm := true
+		for _, s := range rep.Shards {
+			rt := s.LastRT()
+			below := rt.ProcessSeries < o.MaxProcessSeries && (o.MaxHeadSeries == 0 || rt.HeadSeries < o.MaxHeadSeries)
+			movable := false
+			for _, st := range s.Rep {
+				if (o.MaxHeadSeries != 0 && st.Series > o.MaxHeadSeries) || st.TotalSeries > o.MaxProcessSeries || st.Series > o.MaxProcessSeries {
+					heldOver++
+					continue
+				}
+				// (an in_transfer copy may be called off and become movable in the same cycle)
+				if string(st.Health) == "up" && st.ScrapeTimes >= 3 {
+					movable = true
+				}
+			}
+			if !below && movable {
+				calm = false
+			}
+		}
+		if waiting == 0 && heldOver > 0 && calm {
+			count := int32(len(rep.Shards))
+			lim := count
+			if o.MinShard > lim {
+				lim = o.MinShard
+			}
+			for _, sc := range rep.Scale {
+				if sc.Value > lim {
+					r.Report("C04", "oversized-scale-up", "exceeds=held-target",
+						fmt.Sprintf("replica %s: %d shards, nothing is waiting to be placed and without the targets that alone exceed a limit no shard is above half of a limit, but %d shards were requested", rep.ID, count, sc.Value))
+					break
+				}
+			}
+		}
+	}
 	// (b2) ... and never causes a scale-up
 	if overs > 0 && placeable == 0 && allSync && len(rep.Shards) > 0 {
 		quiet := o.DisableAlleviate
@@ -455,6 +506,39 @@ func checkC07(tr *CycleTrace, rep *ReplicaTrace, r Reporter) {
 // ------------------------------------------------------------------ C08
 
 func checkC08(tr *CycleTrace, rep *ReplicaTrace, r Reporter) {
+	// an out-of-sync shard is never chosen as destination: a target newly marked
+	// in_transfer must have an in-sync shard that holds it in normal state afterwards
+	anyUnsynced := false
+	for _, s := range rep.Shards {
+		if !s.InSync {
+			anyUnsynced = true
+		}
+	}
+	if anyUnsynced {
+		for si, s := range rep.Shards {
+			if !s.InSync || s.Post == nil {
+				continue
+			}
+			for _, h := range sortedHashes(s.Post) {
+				old, had := s.Rep[h]
+				if !had || old.TargetState != "" || s.Post[h].TargetState != "in_transfer" {
+					continue
+				}
+				ok := false
+				for di, d := range rep.Shards {
+					if di != si && d.InSync {
+						if st, in := d.Planned()[h]; in && st == "" {
+							ok = true
+						}
+					}
+				}
+				if !ok {
+					r.Report("C08", "transfer-to-unsynced-shard", "",
+						fmt.Sprintf("replica %s: target %d was marked in_transfer on %s but no in-sync shard receives it; a shard that is not in sync must have been chosen as destination", rep.ID, h, s.ID))
+				}
+			}
+		}
+	}
 	scaleErr := false // a failed scale request legitimately ends this replica's cycle early
 	for _, sc := range rep.Scale {
 		if sc.Err {
@@ -511,9 +595,18 @@ func checkC08(tr *CycleTrace, rep *ReplicaTrace, r Reporter) {
 			r.Report("C08", "needless-config-push", "",
 				fmt.Sprintf("replica %s: shard %s was sent the raw configuration although it did not report a different hash", rep.ID, s.ID))
 		}
-		// targets reported by a reachable, not-in-sync shard are not assigned elsewhere
-		if !s.InSync && s.Rep != nil {
-			for _, h := range sortedHashes(s.Rep) {
+		// targets reported by a reachable, not-in-sync shard are not assigned elsewhere.
+		// For a reachable shard whose hash differs (both of its GETs answer) the harness'
+		// knowledge of what it scrapes is used even if the coordinator never asked for it.
+		held := s.Rep
+		if !s.InSync && held == nil && s.Truth != nil && s.StatusWouldAnswer && len(s.RT) > 0 && s.RT[0].ConfigHash != tr.CoordHash {
+			held = map[uint64]*target.ScrapeStatus{}
+			for h, st := range s.Truth {
+				held[h] = &target.ScrapeStatus{TargetState: st}
+			}
+		}
+		if !s.InSync && held != nil {
+			for _, h := range sortedHashes(held) {
 				for _, d := range rep.Shards {
 					if d == s || !d.InSync || d.Post == nil {
 						continue
